@@ -87,6 +87,14 @@ def handle (ws : List String) : String :=
          | none => "ok none"
          | some coll => "ok " ++ " ".intercalate (coll.map fun (t, side) =>
              s!"{t.kind.toString}:{side}:" ++ ",".intercalate (t.ps.map fun v => toString v.toBits)))
+  | "volline" :: fict :: op :: rest =>
+      -- volline <0|1> <op|-> p.. / m.. / ids..    ->  VolumeT4.__str__
+      (let groups := (" ".intercalate rest).splitOn "/"
+       let nums (s : String) := (s.splitOn " ").filterMap (·.toNat?)
+       match groups with
+       | [p, m, o] =>
+           "ok " ++ hex (volLine (nums p) (nums m) (if op == "-" then none else some (op, nums o)) (fict == "1"))
+       | _ => "err bad-groups")
   | ["cards", hx] =>
       -- one block of a deck -> the one-line contents of its cards (comments skipped)
       (match unhex hx with
